@@ -21,7 +21,6 @@ var c12Queries = []string{
 	"SELECT SETVAR('k', a + 1), GETVAR('k') AS g FROM t WHERE a > ?",
 	"SELECT DISTINCT a + 1 AS b FROM t WHERE a > ?",
 	"SELECT FUSE((SELECT a + 1 AS z FROM dual)) FROM t WHERE a > ?",
-	"SELECT a, AWAIT(ASYNC.vid(a)) AS w FROM t WHERE a > ?",
 }
 
 func idFunc(q *Query, cur Map, o *FunctionOptions, args []any) (any, error) {
